@@ -166,7 +166,7 @@ Lemma decode_op_code w s : decode_op w = Some s -> 0 <= h_code s.
 Proof.
   unfold decode_op. destruct w as [|k [|mode [|code r]]]; try discriminate;
     destruct k as [|p|p]; try discriminate; destruct p as [p|p|]; try discriminate.
-  destruct ((mode <? 0) || (mode >? 2) || (code <? 0) || (code >? max_u32)) eqn:E; [discriminate|].
+  destruct ((mode <? 0) || (mode >? 4) || (code <? 0) || (code >? max_u32)) eqn:E; [discriminate|].
   apply orb_false_iff in E as [E _]. apply orb_false_iff in E as [_ E]. apply Z.ltb_ge in E.
   destruct (get_bytes r) as [[msg [|n r']]|]; try discriminate.
   destruct (n <? 0); [discriminate|].
